@@ -14,7 +14,7 @@ def split_mismatch(items):
 
 def check(ctx):
     C.extract(ctx)
-    mods = ["Oq3.Props.C04", "Oq3.Props.C04Lang"]
+    mods = ["Oq3.Props.C04", "Oq3.Props.C04Lang", "Oq3.Props.C04Lang2"]
     C.prove(ctx, mods)
     okb, log = C.cargo_build()
     if not okb:
